@@ -162,14 +162,21 @@ def _fused_io_under_selection(coll):
     """True when, in the optimized plan, a partition selection (a Partitions node or an operator carrying a
     _partitions filter) sits ABOVE a multi-file fused read instead of inside it: the selection then counts the
     fused buckets, not the logical partitions (known finding F20)."""
-    root = coll.optimize().expr
-    for e in _deep(root):
-        nm = type(e).__name__
-        if nm in ("FusedIO", "FusedParquetIO"):
-            continue
-        selecting = nm == "Partitions" or ("_partitions" in getattr(e, "_parameters", []) and e.operand("_partitions") is not None)
-        if selecting and any(_has_fused_io(d) for d in e.dependencies()):
-            return True
+    roots = [coll.optimize().expr]
+    try:
+        # compute() optimizes the collection wrapped in a repartition to one partition: other rewrites fire (a column selection
+        # reaches the reader, which then fuses files) - head / tail results are obtained that way
+        roots.append(coll.repartition(npartitions=1).optimize().expr)
+    except Exception:
+        pass
+    for root in roots:
+        for e in _deep(root):
+            nm = type(e).__name__
+            if nm in ("FusedIO", "FusedParquetIO"):
+                continue
+            selecting = nm == "Partitions" or ("_partitions" in getattr(e, "_parameters", []) and e.operand("_partitions") is not None)
+            if selecting and any(_has_fused_io(d) for d in e.dependencies()):
+                return True
     return False
 
 
